@@ -45,6 +45,8 @@ CLAIMS = {
               "strings.Replace / io.MultiReader / strings.NewReader semantics (trusted specs: first-n replacement, concatenation), html/template rendering of the frame page, net/http header canonicalisation, a <head> split across the first read boundary (then nothing is inserted - allowed by the property).", "DESIGN.md section 4 C14"),
  "C15": claim("Proof for all sizes and segmentations: bytes returned by Read followed by the bytes kept are exactly the buffer (or the one non-empty decoded text frame) the call started with - nothing lost, duplicated or reordered; frames are decoded only when nothing is buffered and only text frames; Write sends exactly one text frame with the hex of exactly its argument and touches none of Read's state (disjoint frames); the bridge handler passes non-bridge requests to the passthrough handler untouched, wraps exactly the upgraded websocket in a fresh per-connection codec state, dials the configured local port and copies each direction once between exactly that pair.",
               "gorilla framing, hex codec inverse pair, io.Copy, TCP.", "DESIGN.md section 4 C15"),
+ "C16": claim("Safety core of a liveness property, proved on both ends of the bridge (agent-side Handler and tcp-bridge-frontend): each copy goroutine copies between exactly its pair of connections and, as soon as its direction has ended, closes the connection it was writing to (which is what lets the far peer observe end-of-stream and unblocks the opposite copy); on every exit path of the per-connection handler the websocket and the TCP connection that were opened are closed; only this pair's connections are ever closed. A genuine defect was found and repaired here (closes were not propagated at all; replayed on the real code).",
+              "the liveness itself: that io.Copy returns when its source ends, bounded time, delivery of all bytes sent before the close (io.Copy / TCP / gorilla, trusted), TCP half-close (not representable over the websocket), connection counts over time.", "DESIGN.md section 4 C16 and section 11.6"),
  "C17": claim("Proof for all identities, ids and records (every handler verified for an arbitrary store state): an agent endpoint reaches the store only after checkBackendID validated the caller's OAuth identity against the backend named in the request, and then only under that validated id; a rejected caller gets exactly one 401 write and no store access; the admin API calls the backend CRUD operations only after isAdminRequest returned true (403 otherwise), isAdminRequest is true iff App Engine admin or OAuth admin; the end-user handler routes for the signed-in user's e-mail (401 when anonymous); agent paths other than the three endpoints get 404.",
               "App Engine's user / datastore / memcache services (trusted specs), the store implementations behind types.Store other than the lookup functions (effects assumed confined to the datastore), the cron path's admin restriction (app yaml, outside Go).", "DESIGN.md section 4 C17"),
  "C19": claim("Proof of the split arithmetic for all sizes (part i is exactly the i-th 1,000,000-byte window, keys <name>.part<i> in order, inline part exactly the first 1,000,000 bytes, all slice bounds safe, parts fetched in listed order) and of the id correlation on every hop (request stored / polled / answered / read under the same backend and request id, response recorded and request marked completed only for an existing request of the validated backend, the served bytes are the stored ones), plus channel-capacity safety of the two concurrent store writes.",
@@ -56,7 +58,6 @@ CLAIMS = {
 }
 
 NOT_APPLICABLE = {
- "C16": "liveness across goroutines and sockets (remote peer observes EOF within bounded time); no pre/post contract, invariant or frame on any function states or decides it (DESIGN.md section 4 C16)",
 }
 
 def main():
